@@ -4,6 +4,9 @@
 
 package rewriter
 
+// error values created by package initialisers (errors.New never returns nil) and never reassigned
+//@ global_nonnil rewriter.errEmptyOld, rewriter.errMaxTooLow, rewriter.errInvalidRegexp, rewriter.errInvalidNotRegexp, rewriter.errInvalidRegexpMax
+
 // ---------------------------------------------------------------- rewriter.go (C04)
 // rwSpec is the documented meaning of one rule: skipped when its not-clause matches, regex rules
 // replace every match, literal rules replace the first Max occurrences (-1 = all).
@@ -14,3 +17,11 @@ package rewriter
 //@   property C04
 //@   ensures[rewrite] result[..] == rwSpec(r, buf[..])
 //@   ensures[alias]   result == buf || isnil(result) || fresh(result)
+
+// ---------------------------------------------------------------- New (C04, C20): the rule is what was configured
+// (parameters are bound by position; "old" and "new" are renamed because old is a keyword here)
+//@ func New(oldS string, newS string, notS string, max int) (rw RW, err error)
+//@   property C04,C20
+//@   ensures[as_configured; C20] err == nil ==> rw.Old == oldS && rw.New == newS && rw.Not == notS && rw.Max == max
+//@   ensures[internals; C04] err == nil ==> rw.old[..] == oldS && rw.new[..] == newS && rw.not[..] == notS && len(oldS) > 0 && max >= -1
+//@   ensures[regex_form; C04] err == nil ==> ((rw.re != nil) == (len(oldS) > 1 && bsub(oldS, 0, 1) == "/" && bsub(oldS, len(oldS) - 1, len(oldS)) == "/")) && (rw.re != nil ==> rw.re.src == bsub(oldS, 1, len(oldS) - 1) && max == -1)
